@@ -570,6 +570,14 @@ def index_(I, base: Any, idx: Any, st, node=None) -> list:
             if hashable(idx) and not isinstance(idx, (Text, CharSet, SeqStr)):
                 if idx in h.fields:
                     return [(h.fields[idx], st)]
+                if h.default is not None:
+                    # collections.defaultdict: a missing key is created from the factory
+                    out = []
+                    for v, s2 in I.call(h.default, [], {}, st, node):
+                        if not isinstance(v, Raised):
+                            s2.obj(base).fields[idx] = v
+                        out.append((v, s2))
+                    return out
                 return [(Raised("KeyError", node), st)]
             if isinstance(idx, (Text, CharSet, SeqStr)):
                 # abstract key: any value or missing
@@ -1330,6 +1338,26 @@ def b_any(I, args, kwargs, st, node):
     return _all_any(I, args, st, False)
 
 
+def _orderable(k: Any) -> bool:
+    """str / int / tuples of those: values Python orders the way the interpreter would."""
+    if isinstance(k, bool):
+        return False
+    if isinstance(k, (str, int)):
+        return True
+    return isinstance(k, tuple) and all(_orderable(x) for x in k)
+
+
+def _ext_itemgetter(I, args, kwargs, st, node):
+    """operator.itemgetter(i[, j...]) on constant indices: a closure over index_."""
+    if not args or not all(isinstance(a, (int, str)) for a in args):
+        st.note("itemgetter of abstract index")
+        return [(Unknown("itemgetter"), st)]
+    from .absval import LambdaV
+
+    body = f"__o[{args[0]!r}]" if len(args) == 1 else "(" + ", ".join(f"__o[{a!r}]" for a in args) + ")"
+    return [(LambdaV(ast.parse(f"lambda __o: {body}", mode="eval").body, {}, None), st)]
+
+
 def b_sorted(I, args, kwargs, st, node):
     items = iter_values(I, args[0], st)
     if items is None:
@@ -1345,14 +1373,24 @@ def b_sorted(I, args, kwargs, st, node):
         out = []
         for _, s in _hof(I, kwargs["key"], list(items), st, step):
             pairs = s.obj(keyed).items
-            if all(isinstance(k, (str, int)) and not isinstance(k, bool) for k, _ in pairs) and len({type(k) for k, _ in pairs}) <= 1:
-                order = sorted(range(len(pairs)), key=lambda i: pairs[i][0], reverse=bool(kwargs.get("reverse")))
+            order = None
+            if all(_orderable(k) for k, _ in pairs):
+                try:
+                    order = sorted(range(len(pairs)), key=lambda i: pairs[i][0], reverse=bool(kwargs.get("reverse")))
+                except TypeError:
+                    order = None
+            if order is not None:
                 out.append((s.alloc(HObj("list", items=[pairs[i][1] for i in order])), s))
             else:
+                if len(pairs) > 1:
+                    s.note("sorted(): keys that cannot be ordered here (result order unknown)")
                 out.append((s.alloc(HObj("list", items=[it for _, it in pairs], setlike=len(pairs) > 1)), s))
         return out
-    if all(isinstance(x, (str, int)) for x in items) and "key" not in kwargs:
-        return [(st.alloc(HObj("list", items=sorted(items, reverse=bool(kwargs.get("reverse"))))), st)]
+    if all(_orderable(x) for x in items) and kwargs.get("key") is None:
+        try:
+            return [(st.alloc(HObj("list", items=sorted(items, reverse=bool(kwargs.get("reverse"))))), st)]
+        except TypeError:
+            pass
     setlike = isinstance(args[0], Ref) and (st.obj(args[0]).setlike or st.obj(args[0]).kind == "set")
     return [(st.alloc(HObj("list", items=list(items), setlike=True if setlike or len(items) > 1 else False)), st)]
 
@@ -1774,7 +1812,30 @@ def _ext_re_findall(I, args, kwargs, st, node):
     return [(Unknown("findall"), st)]
 
 
+def _ext_defaultdict(I, args, kwargs, st, node):
+    """collections.defaultdict(factory[, mapping]): a heap dict that remembers its factory."""
+    fields: dict = {}
+    if len(args) > 1:
+        d = _as_dict(args[1], st)
+        if d is None:
+            st.note("defaultdict from abstract mapping")
+            return [(Unknown("defaultdict"), st)]
+        fields.update(d)
+    return [(st.alloc(HObj("dict", fields=fields, default=args[0] if args else None)), st)]
+
+
+def _ext_ordereddict(I, args, kwargs, st, node):
+    d = _as_dict(args[0], st) if args else {}
+    if d is None:
+        st.note("OrderedDict from abstract mapping")
+        return [(Unknown("OrderedDict"), st)]
+    return [(st.alloc(HObj("dict", fields={**d, **kwargs})), st)]
+
+
 EXT_CALLS = {
+    "ext:operator.itemgetter": _ext_itemgetter,
+    "ext:collections.defaultdict": _ext_defaultdict,
+    "ext:collections.OrderedDict": _ext_ordereddict,
     "ext:itertools.takewhile": _ext_takewhile,
     "ext:itertools.dropwhile": _ext_dropwhile,
     "ext:itertools.islice": _ext_islice,
